@@ -46,7 +46,7 @@ func (c *Ctx) newMoveRun(op string) *moveRun {
 		return nil
 	}
 	cov := newCover(oi.methods["Apply"])
-	cov.skip = map[*ssa.Function]bool{oi.methods["Init"]: true, ctor: true}
+	cov.skip = skipInitOnly(c, oi, ctor)
 	cov.pkgs = map[string]bool{pkgOpset13: true}
 	return &moveRun{c: c, oi: oi, ctor: ctor, st: st, onnx: onnxPkg.Types, cov: cov, trace: os.Getenv("MOVETRACE") == op}
 }
@@ -380,6 +380,15 @@ func (c *Ctx) matmulProvenance() (known bool, bad string, cells, refused int) {
 		pairs = append(pairs, pair{[]int64{mk[1]}, []int64{mk[1], mk[2]}}, pair{[]int64{mk[0], mk[1]}, []int64{mk[1]}}, pair{[]int64{mk[1]}, []int64{mk[1]}},
 			pair{[]int64{mk[1]}, []int64{2, mk[1], mk[2]}}, pair{[]int64{2, mk[0], mk[1]}, []int64{mk[1]}})
 	}
+	// stacks with three and four batch axes (ranks 5 and 6): an odometer over the batch axes that is right for two
+	// axes can be wrong for the third
+	for _, mk := range mats[:2] {
+		for _, bt := range [][2][]int64{{{2, 2, 2}, {2, 2, 2}}, {{2, 3, 2}, {2, 3, 2}}, {{2, 1, 2}, {3, 1}}, {{3, 2, 2}, {2}}, {{2, 2, 2, 2}, {2, 2, 2, 2}}, {{2, 1, 2, 3}, {2, 2, 1}}} {
+			a := append(append([]int64{}, bt[0]...), mk[0], mk[1])
+			b := append(append([]int64{}, bt[1]...), mk[1], mk[2])
+			pairs = append(pairs, pair{a, b})
+		}
+	}
 	// operands that do not fit: inner extents differ; batch axes that do not broadcast
 	bads := []pair{{[]int64{2, 3}, []int64{2, 2}}, {[]int64{2, 2, 3}, []int64{3, 3, 2}}, {[]int64{3}, []int64{2, 2}}}
 	for _, pr := range bads {
@@ -529,7 +538,7 @@ func ruleMatMulProvenance(c *Ctx, prop string) {
 	case bad != "":
 		c.violate("R44", "R44:matmul-provenance", site, bad)
 	default:
-		c.discharge("R44", "R44:matmul-provenance", site, fmt.Sprintf("%d operand pairs (ranks 1..4, vector promotion, stacks with broadcast batch axes, unit extents, three pairs that must be refused): every element is the sum over k of A[.., i, k] * B[.., k, j] with the shape of numpy.matmul; %d pairs are refused, all with a per-batch matrix of a single element on the batched path (an error is what C04 allows there)", cells, refused))
+		c.discharge("R44", "R44:matmul-provenance", site, fmt.Sprintf("%d operand pairs (ranks 1..6, vector promotion, stacks with broadcast batch axes, unit extents, three pairs that must be refused): every element is the sum over k of A[.., i, k] * B[.., k, j] with the shape of numpy.matmul; %d pairs are refused, all with a per-batch matrix of a single element on the batched path (an error is what C04 allows there)", cells, refused))
 		if c.tableCovered == nil {
 			c.tableCovered = map[string]string{}
 		}
